@@ -140,6 +140,26 @@ def build(world, program):
                         return ("cb", i)
                     r = from_thread.run(coro)
                     return ("val", r)
+                if kind == "cb_async_cps":
+                    # a coroutine run in the loop on behalf of the thread; it lives in the
+                    # scope the worker was called from and passes three checkpoints
+                    async def coro3():
+                        log("cb", i, "start")
+                        for k in range(3):
+                            log("cb", i, "cp_begin", k)
+                            try:
+                                await anyio.sleep(0)
+                            except BaseException as e:
+                                log("cb", i, "cp_end", k, harness.classify(e))
+                                raise
+                            log("cb", i, "cp_end", k, ["ok", None])
+                        return ("cb", i)
+                    try:
+                        r = from_thread.run(coro3)
+                    except BaseException as e:
+                        log("cb", i, "thread_saw", type(e).__name__)
+                        raise
+                    return ("val", r)
             finally:
                 running["now"] -= 1
                 log("fn_end", i)
@@ -220,6 +240,7 @@ def check(program, ex):
                     "ret_exc": ["val", repr(ValueError(f"returned{i}"))],
                     "ret_exc_bare": repr(KeyError(f"returned{i}")),
                     "cb_sync": ["val", ["cb", i]], "cb_async": ["val", ["cb", i]],
+                    "cb_async_cps": ["val", ["cb", i]],
                     "check": ["val", i]}.get(kind)
         if r[0] == "ok":
             got = r[1]
@@ -238,7 +259,8 @@ def check(program, ex):
                              f"cancellation ({out}) - only scopes outside the shield were cancelled")
                 elif not cancel_run or program["cancel"] != i:
                     v.append(f"call {i} was cancelled although nobody cancelled its scope")
-                elif not abandon and i in started and kind not in ("check", "cb_async"):
+                elif not abandon and i in started and kind not in ("check", "cb_async",
+                                                                   "cb_async_cps"):
                     # ("check" and "cb_async" functions themselves end with the cancellation
                     # error once the host scope is cancelled: that *is* the function's outcome)
                     v.append(f"call {i}: abandon_on_cancel=False but the caller's cancellation "
